@@ -130,6 +130,8 @@ def _mk(c, tchans=None):
     asc = c['asc']
     # both orientations describe the same band
     fch1 = g['fch1'] if asc else float(F(g['fch1']) + (FCHANS - 1) * F(df))
+    if c.get('negdf'):
+        df = -df        # channel width handed over with a filterbank header's sign: the frame's df is its magnitude
     return stg.Frame(fchans=FCHANS, tchans=tchans or c['tchans'], df=df, dt=dt, fch1=fch1,
                      ascending=asc, t_start=0.0)
 
@@ -138,7 +140,7 @@ def _inputs(fr, c, drift_ch=None):
     """Float values of (f_start, drift, width) for the case, from the frame's own floats."""
     f_start = float(F(fr.fmin) + F(c['pos']) * F(fr.df))
     dch = c['drift'] if drift_ch is None else drift_ch
-    drift = dch * fr.unit_drift_rate
+    drift = dch * (fr.df / fr.dt)          # the unit drift rate: one channel per time step
     width = c['width'] * fr.df
     return f_start, drift, width
 
@@ -161,7 +163,7 @@ def _substep_candidates(fr, drift, smear):
     side of is not decided by the oracle (rule 1)."""
     if not smear:
         return [1]
-    r = abs(F(drift)) / F(fr.unit_drift_rate)
+    r = abs(F(drift)) / F(fr.df / fr.dt)       # unit drift = one channel width per time step (the frame's own positive df, dt)
     if r.denominator == 1 and math.frexp(fr.df)[0] == 0.5 and math.frexp(fr.dt)[0] == 0.5:
         # df and dt are powers of two: every float formula for the ratio is exact, so the count is decided
         return [max(1, int(r))]
@@ -456,6 +458,7 @@ def run(ctx):
             and c['geom'] == geoms[0]]
     for st in ('quantity_scaled', 'np_f32', 'np_i64', 'py_int'):
         cases += [dict(c, style=st) for c in base]
+    cases += [dict(c, negdf=True, asc=a) for c in base for a in (True, False)]
     ctx.pmap(case_const, cases)
     exact = []
     for asc in (True, False):
@@ -467,6 +470,8 @@ def run(ctx):
                             for smear in (False, True):
                                 exact.append(dict(geom='toy', asc=asc, tchans=m, pos=pos, drift=drift, width=width, prof=prof,
                                                   smear=smear, style='plain', seed=seed))
+                                if m == 2 and pos == 24.0:
+                                    exact.append(dict(exact[-1], negdf=True))
     ctx.pmap(case_exact_symmetry, exact)
     mirrors = []
     zs = []
